@@ -271,6 +271,36 @@ def check_cases(chk, cases):
                 chk.violation("C02/%s/%s" % (kind, op), what, dict(case, realisation=key["realisation"], failing_step=i))
 
 
+def library_network_traces(chk, thorough):
+    """[T] code -> spec: the protocol observed on real library networks driven by minimize_mma, minimize_oc and finite_difference"""
+    import json
+    import nettrace
+    traces = []
+    tid = 0
+    for seed in range(3 if thorough else 1):
+        for kind in ("mma", "oc", "fd"):
+            tid += 1
+            traces.append(nettrace.record(chk.seed + seed, tid, kind))
+    cfg = "SPECIFICATION TraceSpec\nINVARIANT Progress\nPOSTCONDITION Report\n"
+    slim = [{k: t[k] for k in ("tid", "mods", "events")} for t in traces]
+    r = chk.tlc("TraceNetwork", cfg, label="TraceNetwork batch of %d" % len(traces), workers=1,
+                extra_files={"traces.json": json.dumps(slim)}, env={"TRACE_FILE": "traces.json"}, timeout=3000)
+    if r.violated is not None:
+        raise tlc.TLCError("TraceNetwork: unexpected TLC verdict %s\n%s" % (r.violated, r.stdout[-2000:]))
+    verdict = {vals[0]: (vals[1], vals[2]) for tag, vals in r.printed if tag == "TRACE"}
+    for tr in traces:
+        chk.add_trace()
+        chk.case({"library-network": tr["kind"], "tid": tr["tid"], "events": len(tr["events"])}, nontrivial=len(tr["events"]) > 10)
+        if tr["error"]:
+            chk.violation("C02/trace/raise", "%s on the compliance network raised %s" % (tr["kind"], tr["error"]), {"kind": tr["kind"]})
+            continue
+        matched, need = verdict[tr["tid"]]
+        if matched != need:
+            e = tr["events"][matched - 1] if 0 <= matched - 1 < len(tr["events"]) else {}
+            chk.violation("C02/trace/%s" % e.get("op", "?"), "%s run: event %d (%s of module %s, invoked=%s) is not allowed by TraceNetwork.tla"
+                          % (tr["kind"], matched - 1, e.get("op"), e.get("k"), e.get("called")), {"kind": tr["kind"], "event": e, "index": matched - 1})
+
+
 def run(chk, replay=None):
     if replay is not None:
         res = replay_program(replay, replay.get("realisation", "user"))
@@ -323,3 +353,4 @@ def run(chk, replay=None):
                 import random
                 cases = random.Random(chk.seed + len(cases)).sample(cases, 3000)     # quick tier: seeded sample of each exhaustive family
             check_cases(chk, cases)
+    library_network_traces(chk, thorough)
